@@ -12,7 +12,12 @@
 //!     target;
 //!  4. on/off differential: every generated template rendered by an engine built normally and by
 //!     an engine built under `set_skip_optimize(true)`, over a lattice of contexts: same text, or
-//!     both fail.
+//!     both fail.  A share of the cases is also rendered (a) by a pair of engines with a
+//!     user-installed escape function (`set_escape_fn`), and (b) through `render_to` /
+//!     `render_block_to` / `render_component_to` into a writer that accepts only 1, 2 or 7 bytes per
+//!     `write` call; and three directed templates whose main chunk has more than 65 535
+//!     instructions after the pass, with taken jumps beyond that index (stream `big-chunk`; the
+//!     Lean optimiser model is quadratic and is not run on those, the structural oracle is).
 use std::collections::{BTreeMap, HashSet};
 use tera::verif_hooks as hooks;
 use std::cell::RefCell;
@@ -28,6 +33,146 @@ use tera_verif_harness::{catch, driver, quiet_panics, Env};
 
 fn build(templates: &[(String, String)], skip: bool) -> Result<Tera, String> {
     build_recorded(templates, skip).map(|(t, _)| t)
+}
+
+/// a user-installed escape function that is visibly not `escape_html`: `<` becomes `[LT]`, `&`
+/// becomes `[AMP]`, the marker letter `b` is upper-cased, everything else is copied
+fn custom_escape(input: &str, out: &mut dyn std::io::Write) -> std::io::Result<()> {
+    for ch in input.chars() {
+        match ch {
+            '<' => out.write_all(b"[LT]")?,
+            '&' => out.write_all(b"[AMP]")?,
+            'b' => out.write_all(b"B")?,
+            c => {
+                let mut buf = [0u8; 4];
+                out.write_all(c.encode_utf8(&mut buf).as_bytes())?
+            }
+        }
+    }
+    Ok(())
+}
+
+/// the same engine with `set_escape_fn(custom_escape)`
+fn build_escaping(templates: &[(String, String)], skip: bool) -> Result<Tera, String> {
+    build(templates, skip).map(|mut t| {
+        t.set_escape_fn(custom_escape);
+        t
+    })
+}
+
+/// `Write` that takes at most `k` bytes per `write` call (a socket, a pipe, a small buffer):
+/// `write_all` copes, a caller that ignores the returned count loses data. Capped like `Capped`.
+struct ShortWriter {
+    buf: Vec<u8>,
+    k: usize,
+    cap: usize,
+}
+
+impl std::io::Write for ShortWriter {
+    fn write(&mut self, data: &[u8]) -> std::io::Result<usize> {
+        let n = data.len().min(self.k);
+        if self.buf.len() + n > self.cap {
+            return Err(std::io::Error::other("verif: output larger than the cap"));
+        }
+        self.buf.extend_from_slice(&data[..n]);
+        Ok(n)
+    }
+    fn flush(&mut self) -> std::io::Result<()> {
+        Ok(())
+    }
+}
+
+/// `render` through a writer that accepts `k` bytes per call
+fn render_short(t: &Tera, name: &str, mode: &Mode, ctx: &Context, k: usize) -> String {
+    let mut w = ShortWriter { buf: Vec::new(), k, cap: 1 << 20 };
+    let r = catch(std::panic::AssertUnwindSafe(|| match mode {
+        Mode::Render => t.render_to(name, ctx, &mut w),
+        Mode::Block(b) => t.render_block_to(name, b, ctx, &mut w),
+        Mode::Component(c) => t.render_component_to(c, ctx, None, true, &mut w),
+    }));
+    match r {
+        Ok(Ok(())) => format!("ok {}", String::from_utf8_lossy(&w.buf)),
+        Ok(Err(_)) => "err".to_string(),
+        Err(p) => format!("panic {p}"),
+    }
+}
+
+/// which extra variants a case is rendered under, next to the plain one: a third of the cases with
+/// the custom escape function, a third through a short-writing writer (1, 2 or 7 bytes per call)
+fn default_variants(id: u64) -> Vec<String> {
+    match id % 3 {
+        0 => vec!["plain".into(), "escape".into()],
+        1 => vec!["plain".into(), format!("short:{}", [1, 2, 7][((id / 3) % 3) as usize])],
+        _ => vec!["plain".into()],
+    }
+}
+
+// ------------------------------------------------------------------------------ big chunks
+
+/// Directed cases whose main chunk has more than 65 535 instructions AFTER the pass, followed by
+/// jumps that are taken whatever the context: an index table narrower than `usize` shows here.
+fn big_cases(first_id: usize) -> Vec<Case> {
+    let mk = |k: usize, head: &str, unit: &str, times: usize, tail: &str| Case {
+        id: first_id + k,
+        stream: "big-chunk",
+        shape: format!("big{k}"),
+        place: Place::Body,
+        segs: vec![format!("{head}{}{tail}", unit.repeat(times))],
+    };
+    vec![
+        // 33 000 x (LoadConst, WriteTop) = 66 000 instructions, then both arms of an if/else
+        mk(0, "", "{{ 1 }}", 33_000, "{% if b %}A{% else %}B{% endif %}|{% if not b %}C{% else %}D{% endif %}."),
+        // 66 100 fused WritePath instructions, then a for loop (Iterate / Jump past 65 535) and an if
+        mk(1, "{% set q = 7 %}", "{{ q }}", 66_100, "{% for x in [1, 2, 3] %}{{ x }}{% if x == 2 %}{% continue %}{% endif %},{% endfor %}{% if b %}A{% else %}B{% endif %}."),
+        // short-circuit and ternary jumps past the limit
+        mk(2, "", "{{ 1 }}", 33_000, "{{ b and 1 }}{{ b or 2 }}{{ 3 if b else 4 }}{{ 5 if not b else 6 }}."),
+    ]
+}
+
+/// a long source as a recipe: `head + unit x times + tail` (found by looking for a run of at least
+/// 1 000 repetitions of a unit of at most 40 bytes starting in the first 200 bytes)
+fn compress_source(src: &str) -> serde_json::Value {
+    if src.len() < 4000 || !src.is_ascii() {
+        return serde_json::json!(src);
+    }
+    let b = src.as_bytes();
+    // a unit that starts at a tag is preferred (pass 0), any unit otherwise (pass 1)
+    for (pass, pos) in (0..2usize).flat_map(|pass| (0..200usize).map(move |pos| (pass, pos))) {
+        if pos >= b.len() || (pass == 0 && b[pos] != b'{') {
+            continue;
+        }
+        for ulen in 1..=40usize {
+            if pos + ulen * 1000 > b.len() {
+                break;
+            }
+            let unit = &b[pos..pos + ulen];
+            let mut n = 0usize;
+            while pos + (n + 1) * ulen <= b.len() && &b[pos + n * ulen..pos + (n + 1) * ulen] == unit {
+                n += 1;
+            }
+            if n >= 1000 {
+                return serde_json::json!({"head": &src[..pos], "unit": &src[pos..pos + ulen], "times": n, "tail": &src[pos + n * ulen..]});
+            }
+        }
+    }
+    serde_json::json!(src)
+}
+
+fn expand_source(v: &serde_json::Value) -> String {
+    match v {
+        serde_json::Value::String(s) => s.clone(),
+        o => format!("{}{}{}", o["head"].as_str().unwrap_or(""), o["unit"].as_str().unwrap_or("").repeat(o["times"].as_u64().unwrap_or(0) as usize), o["tail"].as_str().unwrap_or("")),
+    }
+}
+
+/// templates for a replay file (long sources as recipes)
+fn tj(templates: &[(String, String)]) -> serde_json::Value {
+    serde_json::Value::Array(templates.iter().map(|(n, s)| serde_json::json!([n, compress_source(s)])).collect())
+}
+
+/// a source for a summary line
+fn show_src(src: &str) -> String {
+    if src.len() < 4000 { src.to_string() } else { compress_source(src).to_string() }
 }
 
 /// builds the engine and returns with it the (pre, post) listings of every `Chunk::optimize`
@@ -470,6 +615,8 @@ struct Diff {
     case: usize,
     mode: Mode,
     ctx: Ctx,
+    /// "plain" | "escape" (custom escape function) | "short:<k>" (writer taking k bytes per call)
+    variant: String,
     on: String,
     off: String,
 }
@@ -512,19 +659,44 @@ fn child_diff(infile: &str, outfile: &str) -> ! {
             let side = common["side"].as_str().unwrap_or("both").to_string();
             let on = if side != "off" { build(&templates, false).ok() } else { None };
             let off = if side != "on" { build(&templates, true).ok() } else { None };
-            (on, off)
+            // the same pair with a user-installed escape function
+            let (on_e, off_e) = if side == "both" { (build_escaping(&templates, false).ok(), build_escaping(&templates, true).ok()) } else { (None, None) };
+            (on, off, on_e, off_e)
         },
-        |(on, off), item| {
+        |(on, off, on_e, off_e), item| {
             let name = item["name"].as_str().unwrap();
             let mut n = 0u64;
             let mut classes = [0u64; 3];
             let mut rich: i64 = -1;
             let mut lines = Vec::new();
+            let variants: Vec<String> = match item["variants"].as_array() {
+                Some(v) => v.iter().filter_map(|x| x.as_str().map(|s| s.to_string())).collect(),
+                None => default_variants(item["id"].as_u64().unwrap_or(2)),
+            };
+            let mut extra = 0u64;
             for m in item["modes"].as_array().unwrap() {
                 let mode = mode_of_json(m);
                 for c in item["ctxs"].as_array().unwrap() {
                     let c: Ctx = [c[0].as_u64().unwrap() as usize, c[1].as_u64().unwrap() as usize, c[2].as_u64().unwrap() as usize];
                     let ctx = make_ctx(&c);
+                    // the extra variants: same comparison, other escaper / other writer
+                    for v in variants.iter().filter(|v| v.as_str() != "plain") {
+                        let (xa, xb) = if v == "escape" {
+                            (on_e.as_ref().map(|t| render(t, name, &mode, &ctx)), off_e.as_ref().map(|t| render(t, name, &mode, &ctx)))
+                        } else {
+                            let k: usize = v.strip_prefix("short:").and_then(|k| k.parse().ok()).unwrap_or(1);
+                            (on.as_ref().map(|t| render_short(t, name, &mode, &ctx, k)), off.as_ref().map(|t| render_short(t, name, &mode, &ctx, k)))
+                        };
+                        if let (Some(xa), Some(xb)) = (&xa, &xb) {
+                            extra += 1;
+                            if !agree(xa, xb) {
+                                lines.push(format!("D {}", serde_json::json!({"mode": m, "ctx": c.to_vec(), "variant": v, "on": xa, "off": xb})));
+                            }
+                        }
+                    }
+                    if !variants.iter().any(|v| v == "plain") {
+                        continue;
+                    }
                     let a = on.as_ref().map(|t| render(t, name, &mode, &ctx));
                     let b = off.as_ref().map(|t| render(t, name, &mode, &ctx));
                     n += 1;
@@ -539,12 +711,13 @@ fn child_diff(infile: &str, outfile: &str) -> ! {
                             lines.push(format!("X {}", serde_json::json!({"render": name, "context": ctx_json(&c), "pass_on": a, "pass_off": b})));
                         }
                         if !agree(a, b) {
-                            lines.push(format!("D {}", serde_json::json!({"mode": m, "ctx": c.to_vec(), "on": a, "off": b})));
+                            lines.push(format!("D {}", serde_json::json!({"mode": m, "ctx": c.to_vec(), "variant": "plain", "on": a, "off": b})));
                         }
                     }
                 }
             }
             lines.insert(0, format!("S {n} {} {} {} {rich}", classes[0], classes[1], classes[2]));
+            lines.insert(1, format!("V {extra}"));
             lines
         },
     )
@@ -586,6 +759,10 @@ fn differential(cases: &[Case], ctxs_per_case: &[Vec<Ctx>], threads: usize, hist
                             *hist.entry(format!("rich_context.{}.{class}", case.shape)).or_insert(0) += 1;
                         }
                     }
+                } else if let Some(v) = l.strip_prefix("V ") {
+                    let k: u64 = v.parse().unwrap_or(0);
+                    n += k;
+                    *hist.entry("render.variant.custom_escaper_or_short_writer".into()).or_insert(0) += k;
                 } else if let Some(x) = l.strip_prefix("X ") {
                     if let Ok(mut j) = serde_json::from_str::<serde_json::Value>(x) {
                         j["template"] = serde_json::json!(case.templates().last());
@@ -598,6 +775,7 @@ fn differential(cases: &[Case], ctxs_per_case: &[Vec<Ctx>], threads: usize, hist
                             case: case.id,
                             mode: mode_of_json(&j["mode"]),
                             ctx: [c[0].as_u64().unwrap() as usize, c[1].as_u64().unwrap() as usize, c[2].as_u64().unwrap() as usize],
+                            variant: j["variant"].as_str().unwrap_or("plain").to_string(),
                             on: j["on"].as_str().unwrap_or("").to_string(),
                             off: j["off"].as_str().unwrap_or("").to_string(),
                         });
@@ -631,10 +809,10 @@ fn side_outcome(case: &Case, ctxs: &[Ctx], side: &str) -> String {
 
 /// does this (templates, render target, mode, context) still disagree between on and off?
 /// (evaluated in a child process)
-fn disagrees(templates: &[(String, String)], name: &str, mode: &Mode, c: &Ctx) -> Option<(String, String)> {
+fn disagrees(templates: &[(String, String)], name: &str, mode: &Mode, c: &Ctx, variant: &str) -> Option<(String, String)> {
     let b = Batch {
         common: serde_json::json!({"templates": templates, "side": "both"}),
-        items: vec![serde_json::json!({"id": 0, "name": name, "stream": "", "shape": "", "modes": [mode_json(mode)], "ctxs": [c.to_vec()]})],
+        items: vec![serde_json::json!({"id": 0, "name": name, "stream": "", "shape": "", "modes": [mode_json(mode)], "ctxs": [c.to_vec()], "variants": [variant]})],
     };
     let r = run_batch(CHILD_FLAG, 800_000, &b, std::time::Duration::from_secs(30), 0);
     for (_, lines) in &r.results {
@@ -649,23 +827,25 @@ fn disagrees(templates: &[(String, String)], name: &str, mode: &Mode, c: &Ctx) -
 }
 
 /// greedy shrink: drop segments, move to the plain body, unbind variables
-fn shrink(case: &Case, mode: &Mode, ctx: &Ctx) -> (Case, Mode, Ctx, String, String) {
+fn shrink(case: &Case, mode: &Mode, ctx: &Ctx, variant: &str) -> (Case, Mode, Ctx, String, String) {
     let mut best = case.clone();
     let mut best_mode = mode.clone();
     let mut best_ctx = *ctx;
-    let mut last = disagrees(&best.templates(), &best.name(), &best_mode, &best_ctx).unwrap_or_default();
+    let mut last = disagrees(&best.templates(), &best.name(), &best_mode, &best_ctx, variant).unwrap_or_default();
+    // a big-chunk case is minimal by construction (the size is the point): only its context shrinks
+    let big = case.stream == "big-chunk";
     let t0 = std::time::Instant::now();
     let mut progress = true;
     while progress && t0.elapsed().as_secs() < 8 {
         progress = false;
         // fewer segments
         for i in 0..best.segs.len() {
-            if best.segs.len() <= 1 {
+            if best.segs.len() <= 1 || big {
                 break;
             }
             let mut c = best.clone();
             c.segs.remove(i);
-            if let Some(r) = disagrees(&c.templates(), &c.name(), &best_mode, &best_ctx) {
+            if let Some(r) = disagrees(&c.templates(), &c.name(), &best_mode, &best_ctx, variant) {
                 best = c;
                 last = r;
                 progress = true;
@@ -673,10 +853,10 @@ fn shrink(case: &Case, mode: &Mode, ctx: &Ctx) -> (Case, Mode, Ctx, String, Stri
             }
         }
         // simpler place
-        if best.place != Place::Body {
+        if best.place != Place::Body && !big {
             let mut c = best.clone();
             c.place = Place::Body;
-            if let Some(r) = disagrees(&c.templates(), &c.name(), &Mode::Render, &best_ctx) {
+            if let Some(r) = disagrees(&c.templates(), &c.name(), &Mode::Render, &best_ctx, variant) {
                 best = c;
                 best_mode = Mode::Render;
                 last = r;
@@ -691,7 +871,7 @@ fn shrink(case: &Case, mode: &Mode, ctx: &Ctx) -> (Case, Mode, Ctx, String, Stri
                 }
                 let mut c = best_ctx;
                 c[i] = simpler;
-                if let Some(r) = disagrees(&best.templates(), &best.name(), &best_mode, &c) {
+                if let Some(r) = disagrees(&best.templates(), &best.name(), &best_mode, &c, variant) {
                     best_ctx = c;
                     last = r;
                     progress = true;
@@ -711,10 +891,11 @@ fn mode_json(m: &Mode) -> serde_json::Value {
     }
 }
 
-fn replay_json(templates: &[(String, String)], name: &str, mode: &Mode, ctx: &Ctx, on: &str, off: &str, detail: serde_json::Value) -> serde_json::Value {
+fn replay_json(templates: &[(String, String)], name: &str, mode: &Mode, ctx: &Ctx, variant: &str, on: &str, off: &str, detail: serde_json::Value) -> serde_json::Value {
     serde_json::json!({
-        "templates": templates,
+        "templates": tj(templates),
         "render": name,
+        "variant": variant,
         "mode": mode_json(mode),
         "context": ctx_json(ctx),
         "context_index": ctx.to_vec(),
@@ -741,8 +922,9 @@ fn run_replay(path: &str) {
         .as_array()
         .unwrap()
         .iter()
-        .map(|p| (p[0].as_str().unwrap().to_string(), p[1].as_str().unwrap().to_string()))
+        .map(|p| (p[0].as_str().unwrap().to_string(), expand_source(&p[1])))
         .collect();
+    let variant = j["variant"].as_str().unwrap_or("plain").to_string();
     let name = j["render"].as_str().unwrap().to_string();
     let mode = match &j["mode"] {
         serde_json::Value::String(_) => Mode::Render,
@@ -756,24 +938,45 @@ fn run_replay(path: &str) {
             ctx.insert_value(r, decode(w).unwrap());
         }
     }
+    let big = templates.iter().any(|(_, s)| s.len() > 100_000);
     for (n, s) in &templates {
-        println!("template {n}: {s}");
+        println!("template {n}: {}", show_src(s));
         if let Ok(chunks) = hooks::raw_chunks_wire(n, s, Delimiters::default()) {
             for (cn, l) in chunks {
-                println!("  raw {cn}: {}", l.join(" "));
+                if l.len() > 5000 {
+                    println!("  raw {cn}: {} instructions, the last 12: {}", l.len(), l[l.len() - 12..].join(" "));
+                } else {
+                    println!("  raw {cn}: {}", l.join(" "));
+                }
             }
         }
     }
-    println!("context: {}", j["context"]);
-    match (build(&templates, false), build(&templates, true)) {
+    println!("context: {}   variant: {variant}", j["context"]);
+    let engines = if variant == "escape" { (build_escaping(&templates, false), build_escaping(&templates, true)) } else { (build(&templates, false), build(&templates, true)) };
+    match engines {
         (Ok(on), Ok(off)) => {
-            for (n, _) in &templates {
-                for (cn, l) in hooks::stored_chunks_wire(&on, n).unwrap_or_default() {
-                    println!("  optimised {n} {cn}: {}", l.join(" "));
+            for (n, s) in &templates {
+                let raw = hooks::raw_chunks_wire(n, s, Delimiters::default()).unwrap_or_default();
+                for (k, (cn, l)) in hooks::stored_chunks_wire(&on, n).unwrap_or_default().into_iter().enumerate() {
+                    if l.len() > 5000 {
+                        println!("  optimised {n} {cn}: {} instructions, the last 12: {}", l.len(), l[l.len() - 12..].join(" "));
+                    } else {
+                        println!("  optimised {n} {cn}: {}", l.join(" "));
+                    }
+                    if let Some((_, r)) = raw.get(k) {
+                        if let Some(d) = structural_oracle(r, &l) {
+                            println!("  structural oracle on {n} {cn}: {d}");
+                        }
+                    }
                 }
             }
-            println!("pass on : {}", render(&on, &name, &mode, &ctx));
-            println!("pass off: {}", render(&off, &name, &mode, &ctx));
+            let shorten = |x: String| if big && x.len() > 300 { format!("{} … {} ({} bytes)", x.chars().take(60).collect::<String>(), x.chars().rev().take(120).collect::<Vec<_>>().into_iter().rev().collect::<String>(), x.len()) } else { x };
+            let rend = |t: &Tera| match variant.strip_prefix("short:").and_then(|k| k.parse::<usize>().ok()) {
+                Some(k) => render_short(t, &name, &mode, &ctx, k),
+                None => render(t, &name, &mode, &ctx),
+            };
+            println!("pass on : {}", shorten(rend(&on)));
+            println!("pass off: {}", shorten(rend(&off)));
         }
         (a, b) => println!("registration: on {:?} / off {:?}", a.err(), b.err()),
     }
@@ -800,7 +1003,9 @@ fn main() {
     let exe = driver::driver_path(&env.verif_dir, "drv_c09");
 
     // ---- generate
-    let cases = generate_cases(&mut rng, env.budget(24, 120), env.budget(6000, 50_000));
+    let mut cases = generate_cases(&mut rng, env.budget(24, 120), env.budget(6000, 50_000));
+    let first_big = cases.iter().map(|c| c.id).max().unwrap_or(0) + 1;
+    cases.extend(big_cases(first_big));
     let mut all_templates: Vec<(String, String)> = Vec::new();
     for c in &cases {
         all_templates.extend(c.templates());
@@ -830,10 +1035,10 @@ fn main() {
                                     "property",
                                     format!(
                                         "registration of `{}` fails with the optimisation pass ({}) and succeeds without it",
-                                        c.templates().last().map(|t| t.1.clone()).unwrap_or_default(),
+                                        c.templates().last().map(|t| show_src(&t.1)).unwrap_or_default(),
                                         e.lines().next().unwrap_or("").chars().take(160).collect::<String>()
                                     ),
-                                    serde_json::json!({"templates": c.templates(), "render": c.name(), "mode": "render", "context": ctx_json(&[0, 0, 0]),
+                                    serde_json::json!({"templates": tj(&c.templates()), "render": c.name(), "mode": "render", "context": ctx_json(&[0, 0, 0]),
                                         "pass_on": format!("registration: {}", e.lines().next().unwrap_or("")), "pass_off": "registration ok",
                                         "rerun": "harness/target/release/c09 --replay <this file>"}),
                                 );
@@ -884,7 +1089,7 @@ fn main() {
                 report.violation(
                     "model-mismatch",
                     format!("template {n}: {} chunks with the pass, {} without", st_on.len(), st_off.len()),
-                    serde_json::json!({"templates": c.templates(), "detail": {"stage": "optimize-listing:chunk-set"}}),
+                    serde_json::json!({"templates": tj(&c.templates()), "detail": {"stage": "optimize-listing:chunk-set"}}),
                 );
                 continue;
             }
@@ -920,7 +1125,11 @@ fn main() {
     report.count_n("cases.with_fusion", case_fused.len() as u64);
     report.count_n("cases.with_fusion_and_jump", case_fused_and_jump.len() as u64);
 
-    let reqs: Vec<String> = obs.iter().map(|o| format!("opt {}", o.raw.join(" "))).collect();
+    // the Lean optimiser is list based and quadratic: listings beyond this size are left to the
+    // structural oracle and the on/off differential
+    const MODEL_MAX_INSTRUCTIONS: usize = 20_000;
+    report.count_n("chunks.too_big_for_the_model_stage", obs.iter().filter(|o| o.raw.len() > MODEL_MAX_INSTRUCTIONS).count() as u64);
+    let reqs: Vec<String> = obs.iter().map(|o| if o.raw.len() > MODEL_MAX_INSTRUCTIONS { "opt WriteTop:@".to_string() } else { format!("opt {}", o.raw.join(" ")) }).collect();
     let model = match driver::run_batch_parallel(&exe, &reqs, threads) {
         Ok(m) => m,
         Err(e) => {
@@ -969,7 +1178,7 @@ fn main() {
         if o.stored_off.iter().any(|t| t.starts_with("LoadPath:") || t.starts_with("WritePath:")) {
             report.count("sanity.off_engine_not_raw");
         }
-        if !model.is_empty() {
+        if !model.is_empty() && o.raw.len() <= MODEL_MAX_INSTRUCTIONS {
             report.model_comparisons += 1;
             let want = if o.stored.is_empty() { "ok".to_string() } else { format!("ok {}", o.stored.join(" ")) };
             if model[i] != want {
@@ -1127,9 +1336,9 @@ fn main() {
                 "property",
                 format!(
                     "rendering `{}` with the pass: {on_r}; without the pass: {off_r} (limit 25 s per case on its own, 3 GiB)",
-                    case.templates().last().map(|t| t.1.clone()).unwrap_or_default()
+                    case.templates().last().map(|t| show_src(&t.1)).unwrap_or_default()
                 ),
-                serde_json::json!({"templates": case.templates(), "render": case.name(), "mode": "render",
+                serde_json::json!({"templates": tj(&case.templates()), "render": case.name(), "mode": "render",
                     "context": ctx_json(&ctxs[0]), "contexts_tried": ctxs.iter().map(ctx_json).collect::<Vec<_>>(),
                     "pass_on": on_r, "pass_off": off_r, "detail": {"first_seen": reason},
                     "rerun": "harness/target/release/c09 --replay <this file>   (renders in-process: may not return)"}),
@@ -1141,19 +1350,32 @@ fn main() {
     let mut seen_shapes: HashSet<String> = HashSet::new();
     for d in &diffs {
         let case = case_by_id[&d.case];
-        if !seen_shapes.insert(format!("{}/{:?}", case.shape, case.place)) || report.violations.len() >= 6 {
+        if !seen_shapes.insert(format!("{}/{:?}/{}", case.shape, case.place, d.variant.split(':').next().unwrap_or(""))) || report.violations.len() >= 6 {
             continue;
         }
-        let (sc, sm, sx, on_r, off_r) = shrink(case, &d.mode, &d.ctx);
+        let (sc, sm, sx, on_r, off_r) = shrink(case, &d.mode, &d.ctx, &d.variant);
+        let how = match d.variant.as_str() {
+            "plain" => String::new(),
+            "escape" => " (engines with a user-installed escape function: `<` -> `[LT]`, `&` -> `[AMP]`, `b` -> `B`)".to_string(),
+            v => format!(" (through render_to into a writer that takes {} byte(s) per write call)", v.strip_prefix("short:").unwrap_or("?")),
+        };
+        // where the two texts part
+        let cut = |x: &str| -> String {
+            let common = on_r.chars().zip(off_r.chars()).take_while(|(a, b)| a == b).count();
+            let from = common.saturating_sub(20);
+            format!("{}{}", if from > 0 { "…" } else { "" }, x.chars().skip(from).take(80).collect::<String>())
+        };
+        let first_seen = |x: &str| x.chars().take(400).collect::<String>();
         report.violation(
             "property",
             format!(
-                "optimisation pass changes the result: `{}` renders `{}` with the pass and `{}` without",
-                sc.templates().last().map(|t| t.1.clone()).unwrap_or_default(),
-                on_r.chars().take(80).collect::<String>(),
-                off_r.chars().take(80).collect::<String>()
+                "optimisation pass changes the result{how}: `{}` under context {} renders `{}` with the pass and `{}` without",
+                sc.templates().last().map(|t| show_src(&t.1)).unwrap_or_default(),
+                ctx_json(&sx),
+                cut(&on_r),
+                cut(&off_r)
             ),
-            replay_json(&sc.templates(), &sc.name(), &sm, &sx, &on_r, &off_r, serde_json::json!({"original_case": case.templates(), "first_seen": {"on": d.on, "off": d.off}})),
+            replay_json(&sc.templates(), &sc.name(), &sm, &sx, &d.variant, &first_seen(&on_r), &first_seen(&off_r), serde_json::json!({"original_case": tj(&case.templates()), "first_seen": {"on": first_seen(&d.on), "off": first_seen(&d.off)}})),
         );
     }
 
@@ -1163,9 +1385,11 @@ fn main() {
         let case = case_by_id[&o.case];
         report.violation(
             "property",
-            format!("stored bytecode of {} ({}) is not the raw bytecode with only variable paths merged: {d}", o.tpl, o.chunk),
-            serde_json::json!({"templates": case.templates(), "render": case.name(), "mode": "render", "context": ctx_json(&[0, 0, 0]),
-                "raw": o.raw, "stored": o.stored, "detail": {"oracle": d}, "rerun": "harness/target/release/c09 --replay <this file>"}),
+            format!("stored bytecode of {} ({}) is not the raw bytecode with only variable paths merged: {d} — template {}", o.tpl, o.chunk, case.templates().last().map(|t| show_src(&t.1)).unwrap_or_default()),
+            serde_json::json!({"templates": tj(&case.templates()), "render": case.name(), "mode": "render", "context": ctx_json(&[0, 0, 0]),
+                "raw": if o.raw.len() > 5000 { serde_json::json!(format!("{} instructions (see the replay output)", o.raw.len())) } else { serde_json::json!(o.raw) },
+                "stored": if o.stored.len() > 5000 { serde_json::json!(format!("{} instructions", o.stored.len())) } else { serde_json::json!(o.stored) },
+                "detail": {"oracle": d}, "rerun": "harness/target/release/c09 --replay <this file>"}),
         );
     }
 
@@ -1191,11 +1415,11 @@ fn main() {
         report.oracle_failures += d2.len() as u64;
         if let Some(d) = d2.first() {
             let case = case_by_id[&d.case];
-            let (sc, sm, sx, on_r, off_r) = shrink(case, &d.mode, &d.ctx);
+            let (sc, sm, sx, on_r, off_r) = shrink(case, &d.mode, &d.ctx, &d.variant);
             report.violation(
                 "property",
                 format!("optimisation pass changes the result (found by the burst after a listing mismatch): on `{}` / off `{}`", on_r.chars().take(80).collect::<String>(), off_r.chars().take(80).collect::<String>()),
-                replay_json(&sc.templates(), &sc.name(), &sm, &sx, &on_r, &off_r, serde_json::json!({"stage": "optimize-listing"})),
+                replay_json(&sc.templates(), &sc.name(), &sm, &sx, &d.variant, &on_r, &off_r, serde_json::json!({"stage": "optimize-listing"})),
             );
         } else {
             for i in stage_mismatch.iter().take(3) {
@@ -1204,7 +1428,7 @@ fn main() {
                 report.violation(
                     "model-mismatch",
                     format!("model optimize(raw listing) differs from the stored listing of {} ({})", o.tpl, o.chunk),
-                    serde_json::json!({"templates": case.templates(), "render": case.name(), "mode": "render", "context": ctx_json(&[0, 0, 0]),
+                    serde_json::json!({"templates": tj(&case.templates()), "render": case.name(), "mode": "render", "context": ctx_json(&[0, 0, 0]),
                         "raw": o.raw, "stored": o.stored, "model": model.get(*i),
                         "detail": {"stage": "optimize-listing", "chunk": o.chunk}, "rerun": "harness/target/release/c09 --replay <this file>"}),
                 );
@@ -1221,8 +1445,8 @@ fn main() {
     }
 
     // ---- samples, rule
-    for i in [0usize, obs.len() / 3, obs.len() / 2, obs.len().saturating_sub(1)] {
-        if let Some(o) = obs.get(i) {
+    for i in [0usize, obs.len() / 3, obs.len() / 2, obs.len().saturating_sub(8)] {
+        if let Some(o) = obs.get(i).filter(|o| o.raw.len() < 2000) {
             let case = case_by_id[&o.case];
             report.sample(serde_json::json!({"template": case.templates().last(), "chunk": o.chunk, "raw": o.raw.join(" "), "stored": o.stored.join(" "), "model": model.get(i)}));
         }
